@@ -95,18 +95,21 @@ def _ensure_attached():
     _ATTACHED = True
 
 
-def _run(backend: str, ops, spec, data) -> Tuple[str, str]:
+def _run(backend: str, ops, spec, data, wide: bool = False) -> Tuple[str, str]:
+    """wide: every input table carries an undeclared extra column and its declared columns in another order"""
     _STATE.clear()
     _STATE["active"] = True
     try:
         if backend == "pandas":
-            out = C.run_pandas(ops, C.pandas_frames(spec, data))
+            out = C.run_pandas(ops, C.pandas_frames(spec, data, wide=wide))
         elif backend == "polars":
-            out = C.run_polars(ops, C.polars_frames(spec, data), lazy=False)
+            out = C.run_polars(ops, C.polars_frames(spec, data, wide=wide), lazy=False)
         elif backend == "polars-lazy":
-            out = C.run_polars(ops, C.polars_frames(spec, data), lazy=True)
+            out = C.run_polars(ops, C.polars_frames(spec, data, wide=wide), lazy=True)
+        elif backend == "polars-eager-mode":
+            out = C.run_polars(ops, C.polars_frames(spec, data, wide=wide), lazy=True, use_lazy_eval=False)
         else:
-            out = C.run_sqlite(ops, C.pandas_frames(spec, data), via_ops=True)
+            out = C.run_sqlite(ops, C.pandas_frames(spec, data, wide=wide), via_ops=True)
     finally:
         _STATE["active"] = False
     wrap.take_failures()
@@ -117,10 +120,10 @@ def _run(backend: str, ops, spec, data) -> Tuple[str, str]:
     return _STATE["verdict"]
 
 
-BACKENDS_RUN = ("pandas", "polars", "polars-lazy", "sqlite")
+BACKENDS_RUN = ("pandas", "polars", "polars-lazy", "polars-eager-mode", "sqlite")
 
 
-def eval_case(spec: Dict[str, Any], data: Dict[str, Any]) -> Dict[str, Any]:
+def eval_case(spec: Dict[str, Any], data: Dict[str, Any], wide: bool = False) -> Dict[str, Any]:
     """All prefixes (0..n steps) x all back ends.  -> {'evals': [(prefix_len, backend, status, detail)], 'fails': [...]}"""
     _ensure_attached()
     evals = []
@@ -129,8 +132,8 @@ def eval_case(spec: Dict[str, Any], data: Dict[str, Any]) -> Dict[str, Any]:
         ps = C.prefix_spec(spec, plen)
         ops = C.build(ps)
         for be in BACKENDS_RUN:
-            st, detail = _run(be, ops, ps, data)
-            evals.append((plen, be, st, detail))
+            st, detail = _run(be, ops, ps, data, wide=wide)
+            evals.append((plen, be + ("-wide" if wide else ""), st, detail))
     fails = []
     for plen, be, st, detail in evals:
         if st == "fail":
@@ -153,6 +156,8 @@ def classify(pspec, backend: str, detail: str, data=None) -> str:
     """Narrow classifiers for the column defects known on the pinned tree; anything else is unclassified."""
     steps = pspec["steps"]
     got, declared = _parse_cols(detail)
+    wide = backend.endswith("-wide")
+    backend = backend.replace("-wide", "")
     if backend == "sqlite" and got:
         # SQL generation ignores a select_columns whose (effective) source is a convert_records step when
         # the selection only reaches the result through SELECT *: the result has the record-map columns
@@ -165,7 +170,7 @@ def classify(pspec, backend: str, detail: str, data=None) -> str:
             conv = [n for n in trace if n.node_name == "ConvertRecordsNode"]
             if conv and got == list(conv[-1].column_names):
                 return "%s:sql_model.SQLModel.select_columns_to_near_sql:select_columns-after-convert_records" % PID
-    if backend in ("pandas", "polars", "polars-lazy") and data is not None and got:
+    if backend in ("pandas", "polars", "polars-lazy", "polars-eager-mode") and data is not None and got:
         # blocks_to_rowrecs builds its result columns from the key values present in the data: the defect
         # is already visible in what this back end returns right after the convert_records step
         be = "pandas" if backend == "pandas" else "polars"
@@ -190,16 +195,17 @@ def classify(pspec, backend: str, detail: str, data=None) -> str:
 def _worker(job):
     pool = C.data_pool(*job["pool_args"])
     out = []
-    for spec, di in job["cases"]:
+    for spec, di, wide in job["cases"]:
         data = pool[di]
         try:
-            r = eval_case(spec, data)
+            r = eval_case(spec, data, wide)
         except Exception as e:
             import traceback
 
             r = {"evals": [], "fails": [], "harness_error": "%s: %s | %s" % (type(e).__name__, e, traceback.format_exc()[-600:])}
         r["ids"] = spec["meta"]["ids"]
         r["di"] = di
+        r["wide"] = wide
         r["spec"] = spec if (r["fails"] or r.get("harness_error")) else None
         out.append(r)
     return {"results": out, "wrap": wrap.snapshot()}
@@ -222,8 +228,8 @@ def make_cases(tier: str, seed: int):
             picks = C.pick_data(n_pool, idx, per, seed)
             if 0 not in picks and idx % 2 == 1:
                 picks = [0] + picks[:-1]  # empty inputs for (at least) every second pipeline
-            for di in picks:
-                cases.append((spec, di))
+            for j, di in enumerate(picks):
+                cases.append((spec, di, (idx + j) % 2 == 1))  # every second evaluation uses wide inputs
             idx += 1
     return sc, cases
 
@@ -254,7 +260,7 @@ def bounded(rep: Report, tier: str, seed: int) -> None:
                     Violation(
                         key=f["key"],
                         what="%s returned columns that differ from ops.column_names for %s with %s: %s" % (f["backend"], C.describe(spec), _short(data), f["detail"][:300]),
-                        replay={"module": "cbc.c08", "case": {"spec": spec, "data": data, "backend": f["backend"]}},
+                        replay={"module": "cbc.c08", "case": {"spec": spec, "data": data, "backend": f["backend"], "wide": r["wide"]}},
                     )
                 )
     C.sort_violations(rep)
@@ -278,9 +284,9 @@ def replay_case(case: Dict[str, Any]) -> bool:
     _ensure_attached()
     failed = False
     for be in BACKENDS_RUN:
-        if case.get("backend") and be != case["backend"]:
+        if case.get("backend") and be != case["backend"].replace("-wide", ""):
             continue
-        st, detail = _run(be, ops, spec, data)
+        st, detail = _run(be, ops, spec, data, wide=bool(case.get("wide")))
         print("%s: %s %s" % (be, st, detail))
         failed = failed or st == "fail"
     return failed
